@@ -344,7 +344,7 @@ func autoAxioms(ts []*Term) []*Term {
 					if ok {
 						// lemma V_eq with the frame of m as premise
 						before := mkV(fp.before, lo, hi)
-						out = append(out, mkImp(mkOr(mkLe(hi, fp.lo), mkGe(lo, fp.hi)), mkEq(u, before)))
+						out = append(out, mkImp(mkOr(mkLe(hi, fp.lo), mkGe(lo, fp.hi), mkLe(fp.hi, fp.lo)), mkEq(u, before)))
 						queue = append(queue, before)
 					}
 				}
@@ -404,27 +404,51 @@ func renderQuery(asserts []*Term, getValues []*Term) string {
 	// uninterpreted functions
 	funs := map[string]string{}
 	var funNames []string
-	for _, t := range asserts {
-		walk(t, func(u *Term) bool {
-			if !smtBuiltin[u.Op] {
-				if _, ok := funs[u.Op]; !ok {
-					var as []string
-					for _, a := range u.Args {
-						as = append(as, a.Sort.String())
-					}
-					funs[u.Op] = fmt.Sprintf("(declare-fun %s (%s) %s)", u.Op, strings.Join(as, " "), u.Sort.String())
-					funNames = append(funNames, u.Op)
+	all := append(append([]*Term(nil), asserts...), getValues...)
+	// count occurrences of every distinct subterm (by pointer-independent text) to share big ones
+	count := map[string]int{}
+	repr := map[string]*Term{}
+	visited := map[*Term]bool{}
+	var visit func(t *Term)
+	visit = func(t *Term) {
+		if !smtBuiltin[t.Op] {
+			if _, ok := funs[t.Op]; !ok {
+				var as []string
+				for _, a := range t.Args {
+					as = append(as, a.Sort.String())
 				}
+				funs[t.Op] = fmt.Sprintf("(declare-fun %s (%s) %s)", t.Op, strings.Join(as, " "), t.Sort.String())
+				funNames = append(funNames, t.Op)
 			}
-			return true
-		})
+		}
+		if len(t.Args) == 0 {
+			return
+		}
+		k := t.String()
+		count[k]++
+		if visited[t] {
+			return
+		}
+		visited[t] = true
+		if _, ok := repr[k]; !ok {
+			repr[k] = t
+		}
+		if count[k] > 1 {
+			return // children already counted through the first occurrence
+		}
+		for _, a := range t.Args {
+			visit(a)
+		}
+	}
+	for _, t := range all {
+		visit(t)
 	}
 	sort.Strings(funNames)
 	for _, n := range funNames {
 		b.WriteString(funs[n])
 		b.WriteByte('\n')
 	}
-	consts := freeConsts(append(append([]*Term(nil), asserts...), getValues...))
+	consts := freeConsts(all)
 	tableMu.Lock()
 	for _, c := range consts {
 		if vals, ok := tables[c.Name]; ok {
@@ -435,21 +459,57 @@ func renderQuery(asserts []*Term, getValues []*Term) string {
 			fmt.Fprintf(&b, "(define-fun %s () (Array Int Int) %s)\n", c.Name, arr)
 			continue
 		}
-		name := c.Name
-		fmt.Fprintf(&b, "(declare-const %s %s)\n", smtName(name), c.Sort.String())
+		fmt.Fprintf(&b, "(declare-const %s %s)\n", smtName(c.Name), c.Sort.String())
 	}
 	tableMu.Unlock()
+	// shared subterms become definitions (the text is a DAG, not a tree)
+	names := map[string]string{}
+	nshared := 0
+	var emit func(t *Term) string
+	emit = func(t *Term) string {
+		if len(t.Args) == 0 {
+			return smtText(t)
+		}
+		k := t.String()
+		if n, ok := names[k]; ok {
+			return n
+		}
+		var sb strings.Builder
+		switch t.Op {
+		case "K0", "KF":
+			return t.String()
+		}
+		sb.WriteByte('(')
+		sb.WriteString(t.Op)
+		for _, a := range t.Args {
+			sb.WriteByte(' ')
+			sb.WriteString(emit(a))
+		}
+		sb.WriteByte(')')
+		txt := sb.String()
+		if count[k] > 1 && len(k) > 120 {
+			nshared++
+			n := fmt.Sprintf("sh!%d", nshared)
+			fmt.Fprintf(&b, "(define-fun %s () %s %s)\n", n, t.Sort.String(), txt)
+			names[k] = n
+			return n
+		}
+		return txt
+	}
+	var lines []string
 	for _, a := range asserts {
-		fmt.Fprintf(&b, "(assert %s)\n", smtText(a))
+		lines = append(lines, fmt.Sprintf("(assert %s)\n", emit(a)))
+	}
+	var gv []string
+	for _, v := range getValues {
+		gv = append(gv, emit(v))
+	}
+	for _, l := range lines {
+		b.WriteString(l)
 	}
 	b.WriteString("(check-sat)\n")
-	if len(getValues) > 0 {
-		b.WriteString("(get-value (")
-		for _, v := range getValues {
-			b.WriteString(smtText(v))
-			b.WriteByte(' ')
-		}
-		b.WriteString("))\n")
+	if len(gv) > 0 {
+		b.WriteString("(get-value (" + strings.Join(gv, " ") + "))\n")
 	}
 	return b.String()
 }
@@ -588,17 +648,41 @@ func (d *Discharger) prepare(o *Obligation, getValues []*Term) (string, error) {
 	if err != nil {
 		return "", err
 	}
+	t0 := time.Now()
 	insts := instantiate(q)
+	t1 := time.Now()
 	var asserts []*Term
 	asserts = append(asserts, q.Hyps...)
 	asserts = append(asserts, insts...)
 	ax := autoAxioms(asserts)
 	asserts = append(asserts, ax...)
-	return renderQuery(asserts, getValues), nil
+	t2 := time.Now()
+	txt := renderQuery(asserts, getValues)
+	if os.Getenv("DVC_PROF") != "" {
+		fmt.Fprintf(os.Stderr, "prep %s: hyps=%d schemas=%d insts=%d axioms=%d bytes=%d inst=%.2fs ax=%.2fs render=%.2fs\n", o.Name, len(q.Hyps), len(q.Schemas), len(insts), len(ax), len(txt),
+			t1.Sub(t0).Seconds(), t2.Sub(t1).Seconds(), time.Since(t2).Seconds())
+	}
+	return txt, nil
 }
 
 func (d *Discharger) discharge(o *Obligation) {
 	if o.Result != "" {
+		return
+	}
+	if o.Kind == "cover" {
+		// reachability checks only matter when they come back unsat (vacuity); a model search
+		// over nonlinear constraints can be slow, so they get one short attempt
+		text, err := d.prepare(o, nil)
+		if err != nil {
+			o.Result = "unknown"
+			return
+		}
+		id := int(atomic.AddInt64(&d.nq, 1))
+		file := filepath.Join(d.workdir, fmt.Sprintf("c%06d.smt2", id))
+		os.WriteFile(file, []byte(text), 0o644)
+		r := runSolver(context.Background(), solvers[0], 4, file)
+		os.Remove(file)
+		o.Result, o.Solver, o.TimeS = r.Result, r.Solver, r.TimeS
 		return
 	}
 	text, err := d.prepare(o, nil)
@@ -613,7 +697,11 @@ func (d *Discharger) discharge(o *Obligation) {
 		o.Solver = fmt.Sprintf("query too large (%d bytes)", len(text))
 		return
 	}
+	tw := time.Now()
 	r := solve(d.workdir, id, text, d.quickS, d.fullS)
+	if os.Getenv("DVC_PROF") != "" {
+		fmt.Fprintf(os.Stderr, "solve %s: %s %s solver=%.2fs wall=%.2fs\n", o.Name, r.Result, r.Solver, r.TimeS, time.Since(tw).Seconds())
+	}
 	o.Result, o.Solver, o.TimeS = r.Result, r.Solver, r.TimeS
 	if d.keep {
 		o.Query = text
